@@ -301,7 +301,7 @@ def detect_flags():
 class C02(Property):
     id = "C02"
     prop_modules = ["CobaVerif.Props.C02"]
-    quick_n = 340
+    quick_n = 280
     thorough_n = 6000
     search_n = 160
     case_timeout = 120
@@ -384,23 +384,24 @@ class C02(Property):
              "cfg0": CFG1, "cfg": {"processes": 1, "maxtasksperchunk": rng.choice([0, 0, 1])}}
         c["name"] = rng.choice(["r.log", "r.log", "r.log", "r.log.gz", "r.gz.bak", "a.gz.d/r.log", "r s \u00e9.log"])
         c["gz"] = ".gz" in c["name"]
-        huge = rng.chance(0.12)
+        huge = rng.chance(0.05 if tier == "quick" else 0.12)
         size = rng.randint(1100000, 1500000) if huge else rng.choice([66000, 70000, 90000, 131500, 200000, rng.randint(65000, 300000)])
-        if huge and c["gz"]:
+        if huge and c["gz"] and (tier != "quick" or rng.chance(0.3)):
             size *= 2       # the text compresses about 2:1; the gzip member itself shall exceed 1 MiB
         c["big"] = {"pairs": [[rng.below(ne), rng.below(nl)]], "size": size, "rows": rng.choice([1, 1, 2, 3])}
         nrec = 2 + ne + nl + 1 + ne * nl
         c["cuts"] = self.long_cuts(rng, nrec, 2 if huge else 5)
         if huge:
-            c["cuts"] = c["cuts"][::2] if rng.chance(0.5) else c["cuts"][1::2]
+            c["cuts"] = rng.sample(c["cuts"], 8)      # a resume of a multi-megabyte log costs ~1 s (implementation + model)
         return c
 
     def generate(self, rng, tier):
+        rng = rng.fork("c02")       # the per-case streams of core.prng overlap (shifted by one output) for neighbouring case numbers
         if rng.chance(0.07):
             return self.gen_long(rng, tier)
         c = self.gen_exp(rng)
         self.gen_name(rng, c)
-        mp = rng.chance(0.05)
+        mp = rng.chance(0.035 if tier == "quick" else 0.05)
         c["cfg0"] = CFG1
         c["cfg"] = self.gen_cfg(rng, mp)
         nrec = 2 + len(c["envs"]) + len(c["lrns"]) + len(c["vals"]) + len(triples_of(c))
@@ -423,6 +424,7 @@ class C02(Property):
         return c
 
     def search(self, rng, tier):
+        rng = rng.fork("c02s")
         if rng.chance(0.25):
             return self.gen_long(rng, tier)
         c = self.gen_exp(rng, small=True)
